@@ -11,7 +11,7 @@ TRUSTED_BASE = [
 ]
 
 # streams whose operations carry no state (a failing op is its own minimal replay)
-STREAM_STATELESS = {"merkle": True}
+STREAM_STATELESS = {"merkle": True, "addr": False}
 
 PROPS = {
     "C01": {
@@ -68,6 +68,48 @@ PROPS = {
                      "Goat.C15.immature_stay", "Goat.C15.mature_leave_queue", "Goat.C15.below_threshold_exits"],
         "streams": [{"name": "locking", "quick": 2500, "thorough": 40000, "seeds": 16}],
         "assumptions": ["block time is non-decreasing (CometBFT)", "ExitingDuration >= UnlockDuration (Params.Validate)"],
+    },
+    "C03": {
+        "module": "GoatProofs.C03",
+        "theorems": ["Goat.C03.C03_accept_implies", "Goat.C03.C03_value_exact", "Goat.C03.C03_coinbase_only_at_zero",
+                     "Goat.C03.hasDeposited_iff", "Goat.C03.newDeposits_go_spec", "Goat.C03.C03_deposit_once"],
+        "streams": [{"name": "bitcoin", "quick": 2500, "thorough": 30000, "seeds": 16}],
+        "assumptions": ["double SHA-256 collision resistance enters only as the explicit hypothesis IdealHash of the coinbase corollary",
+                        "btcd DeserializeNoWitness is re-implemented in the model (BtcTx.parseNoWitness) and tied differentially",
+                        "hash160 / taproot tweak values are stated by the harness (computed with btcd / x/crypto directly, independently of x/bitcoin/types)"],
+    },
+    "C05": {
+        "module": "GoatProofs.C05",
+        "theorems": ["Goat.C05.terminal_absorbing", "Goat.C05.Respects.trans", "Goat.C05.respects_insert", "Goat.C05.checkOutput_terms",
+                     "Goat.C05.process_go_spec", "Goat.C05.process_terms", "Goat.C05.paid_terms", "Goat.C05.approve_spec"],
+        "streams": [{"name": "bitcoin", "quick": 2500, "thorough": 30000, "seeds": 16}],
+        "assumptions": ["withdrawal ids from the execution layer are fresh (bridge contract counter); id reuse is exercised by the generator but excluded from the monitor",
+                        "address decoding is a parameter of the model (tied in C17); fee-rate comparison modelled in exact integers (DESIGN section 7)"],
+        "partial": "edges for ReplaceWithdrawal / FinalizeWithdrawal / ProcessBridgeRequest are checked by the monitor and the state comparison, not yet by a Lean theorem",
+    },
+    "C06": {
+        "module": "GoatProofs.C06",
+        "theorems": ["Goat.C06.consecutive_number", "Goat.C06.btc_dequeue_spec", "Goat.C06.blockhashes_gapfree", "Goat.C06.locking_dequeue_spec"],
+        "streams": [{"name": "bitcoin", "quick": 2000, "thorough": 30000, "seeds": 16}, {"name": "locking", "quick": 1500, "thorough": 20000, "seeds": 8}],
+        "assumptions": ["RLP/ABI encoding of system transactions is goat-geth's (fields compared after decoding)"],
+        "partial": "VerifyDequeue / unfinalised-proposal clauses are covered by the A-layer stream (app), see DESIGN",
+    },
+    "C17": {
+        "module": "GoatProofs.C17",
+        "theorems": ["Goat.C17.v0_roundtrip", "Goat.C17.v0_accept_iff", "Goat.C17.v0_script_injective", "Goat.C17.v1_roundtrip",
+                     "Goat.C17.v1_only_ecdsa", "Goat.C17.v1_accept_iff", "Goat.C17.system_script_ecdsa"],
+        "streams": [{"name": "addr", "quick": 4000, "thorough": 60000, "seeds": 16}],
+        "assumptions": ["SHA-256 / HASH160 / taproot tweak are parameters; 'for no other key/address' reduces to their collision resistance (hypothesis)",
+                        "withdrawal address decoding (bech32/base58, btcd) is NOT modelled in Lean: the model's decodeAddr is an oracle stated by the harness from btcutil directly; the real DecodeBtcAddress is compared against it on all four networks"],
+        "partial": "address string decoding is translation-validated against btcutil, not proved",
+    },
+    "C20": {
+        "module": "GoatProofs.C20",
+        "theorems": ["Goat.C20.validate_establishes", "Goat.C20.requests_preserve_bounds", "Goat.C20.history_preserves_bounds",
+                     "Goat.C20.processBridgeRequest_params", "Goat.C20.tax_below_value", "Goat.C20.tax_formula", "Goat.C20.no_dust",
+                     "Goat.C20.F8_rate_10000_takes_everything"],
+        "streams": [{"name": "bitcoin", "quick": 2000, "thorough": 30000, "seeds": 16}, {"name": "addr", "quick": 2000, "thorough": 20000, "seeds": 8}],
+        "assumptions": [],
     },
     "C04": {
         "module": "GoatProofs.C04",
